@@ -20,18 +20,18 @@ type partS struct {
 	recs      []recS
 }
 type opS struct {
-	v, pv      int
-	tx890      int
-	acks       int
-	timeout    int64
-	limit      int64
-	bmax       int64
-	pid        int64
-	epoch      int
-	txn, cid   string
-	comp       string
-	corr       int64
-	parts      []partS
+	v, pv    int
+	tx890    int
+	acks     int
+	timeout  int64
+	limit    int64
+	bmax     int64
+	pid      int64
+	epoch    int
+	txn, cid string
+	comp     string
+	corr     int64
+	parts    []partS
 }
 
 func (o opS) emit() {
